@@ -107,13 +107,19 @@ CLAIMS['C07'] = dict(
     note="Assumes Python set semantics; which matches are found (and therefore overlap) is the search's business (C01/C02).",
     technique='contract-based deductive verification (block contract over set predicates + inductive lemma, z3) + exhaustive grid')
 CLAIMS['C08'] = dict(
-    category='other',
-    text="find_unchanged_atom_pairs(P, P) is proved to be the identity map for patterns of any size without coincident same-element atoms "
-         "(both loops cut at invariants, early exit by break handled); with the contracts of C07/C10/C11 an identity map means no atom is "
-         "appended and nothing is deleted. The no-op conclusion on whole structures, A->B->A reversibility and 'second search finds none' "
-         "are only checked with a stated bound on the real code (planted structures; UiO-66 files in thorough).",
-    note="Level 'other': reversibility rests on completeness of the search (bounded). norm() uninterpreted with norm(0)=0.",
-    technique='contract-based deductive verification of the shared-atom map (loop invariants, z3) + bounded self-replacement / A-B-A workflows')
+    category='proof',
+    text="Proved on the real code: (a) atoms.find_unchanged_atom_pairs(P, P) is the identity map for patterns of any size without coincident "
+         "same-element atoms (both loops under invariants, `break` handled); (b) with that map, the replacement block of "
+         "replace_pattern_in_structure is executed for ANY number of matches against the proved contracts of extend_types / extend / "
+         "__delitem__ and the contract of the search: every pattern atom is mapped onto its matched atom, extend appends no atom, nothing is "
+         "marked for deletion, the final delete gets an empty list and changes nothing (C10 corollary) -- so replacing a pattern by an "
+         "identical pattern leaves atom count and order, every position, charge, group and element, and every bond / angle / torsion array "
+         "with types and extra rows unchanged (pattern without terms of its own; a pattern with terms adds them, which is C06's clause). "
+         "A -> B -> A reversibility, 'a second search finds none' and the repository's MOF files are only checked with a stated bound "
+         "(67 cases quick incl. occurrences sharing atoms, a same-element atom displaced by 0.08 A, wide tolerances; UiO-66 in thorough).",
+    note="Assumed: contract of find_pattern_in_structure (matches list distinct existing atoms carrying the pattern's elements; C01 bounded part); "
+         "norm uninterpreted with norm(0) = 0; callee contracts as proved in C10 / C11; A4 deepcopy.",
+    technique='contract-based deductive verification (loop invariants; replacement block modular over callee contracts, z3) + bounded A->B->A and MOF-file checks')
 CLAIMS['C16'] = dict(
     category='proof',
     text="Atoms.load_cml is executed symbolically against an abstract parsed document (two symbolic lists of attribute dictionaries of any "
